@@ -19,9 +19,18 @@ Four operation families share the machinery:
          a reset of the global RNG) explored with PROCESS snapshots: the state reached by a history is the
          process that executed it (fork), so links between live objects and state hidden in the library's
          modules are preserved exactly; the other families use copy.deepcopy snapshots, which are much faster
-         but cut such links
+         but cut such links (a family whose objects cannot be deep-copied faithfully - probed in a forked child
+         before the search - is explored with process snapshots too, to depth <= 3)
+
+What is judged is observable behaviour only: bytes of `.scrn`, of the arrays returned by `add_row()` and by the
+FFT functions, and NumPy's global generator.  Private attributes, generator states and module globals are part of
+the de-duplication key of the search, and a change of hidden state of an object that was not operated on only
+TRIGGERS a run-ahead (two more rows added in a forked copy and compared with the pristine table) - it is never a
+violation by itself.
 """
+import copy
 import itertools
+import random
 
 import numpy
 
@@ -35,10 +44,12 @@ LEVEL = "model_checking"
 ISOLATE_CASES = True     # every case starts from a pristine process: verdicts do not depend on which case ran before
 ENGINES = ["E3-explicit-state-history-search", "E4-schedule-exploration"]
 TECHNIQUE = ("explicit-state breadth-first search over interleaved operation histories on several live screen "
-             "objects and NumPy's global RNG, each reached state compared bit-for-bit with a reference table "
-             "whose every entry was generated in its own pristine process; plus exhaustive single-preemption "
-             "interleaving of pairs of calls at library-line granularity (one call run to completion at every line "
-             "of the other), seed / call-form / result-ownership enumerations")
+             "objects and NumPy's global RNG, each reached state compared bit-for-bit (.scrn, arrays returned by "
+             "add_row and by the FFT functions) with a reference table whose every entry was generated in its own "
+             "pristine process; seed / call-form / result-ownership / equal-seed-twin enumerations; as an "
+             "OBSERVATION only (never a violation): single-preemption interleaving of pairs of calls at "
+             "library-line granularity (one call run to completion at every line of the other, in a forked child "
+             "with a deadlock guard)")
 RULE = ("case = (family, first operation of the history); from there BFS over the family's whole operation "
         "alphabet to the depth bound, de-duplicated on the canonical state (seeded objects by content, unseeded "
         "objects by kind and age, global RNG state, module globals); non-trivial = transitions whose history "
@@ -46,24 +57,39 @@ RULE = ("case = (family, first operation of the history); from there BFS over th
 ASSUMPTIONS = [
     "unseeded objects draw from OS entropy; their content is abstracted to (kind, rows added) in the state hash - "
     "sound for this property because every executed transition re-checks every seeded object against the table",
-    "depth bound per tier; at most one live object per slot",
-    "threads: two calls interleaved with ONE preemption at line granularity are explored exhaustively (mc/reentry.py: "
-    "the other call is run to completion at every library line, which is what a second interpreter thread does "
-    "between two lines when the library holds no lock); more preemptions, and preemption inside C code that "
-    "releases the interpreter lock, are not modelled; other processes: forked siblings and fresh interpreters only",
-    "small screens (vK 4x4/5x5, Fried 3x3/5x5, FFT 4x4/8x8): the property is about state isolation, not size",
+    "depth bound per tier; at most one live object per slot in the history search (two live instances of ONE seed, "
+    "advanced asymmetrically and re-created, are enumerated separately: twins:*)",
+    "the statement quantifies over interleavings of whole OPERATIONS; it does not promise re-entrancy under threads. "
+    "Two calls interleaved with ONE preemption at line granularity (mc/reentry.py: the other call run to completion, "
+    "nested, at every library line) are still explored, in a forked child with a deadlock / wall-clock guard, but a "
+    "dependence found there is recorded as the observation `preemption_dependence_observed`, never as a violation; "
+    "a nested call that blocks on a lock the outer call holds, or raises, makes the pair 'not claimed'. "
+    "Other processes: forked siblings and fresh interpreters only",
+    "small screens (vK 4x4/5x5, Fried 3x3 and requested 4 -> allowed 5, FFT 4x4/8x8) in the history search: the "
+    "property is about state isolation, not size; parameter variants lie 1e-6 (relative) next to the base value, "
+    "which separates every state keyed on a subset, a rounding or a formatting of the parameters",
     "'unseeded calls differ' is required in every history, including histories that put NumPy's global generator "
-    "into the same state before both calls (the property quantifies over changes to the global state)",
+    "or Python's `random` module into the same state before both calls (the property quantifies over changes to the "
+    "global state)",
+    "seed domain: integers of every size and numpy integer scalars are the documented domain (an exception there is "
+    "a violation); sequences, SeedSequence objects and their children and Generator objects are judged only if the "
+    "library accepts them - a TypeError / ValueError on such a seed makes the sub-case 'not claimed'",
+    "make_initial_screen() on a live instance: equal histories must restart to equal bytes; 'equals a fresh "
+    "instance' is claimed only if the library restarts the stream at all (probed with zero rows added)",
 ]
 LEVEL_TEXT = ("Every interleaving (to depth 4 quick / 6 thorough in the main family, 4/5 in the parameter-variant "
               "families) of constructing/advancing seeded infinite screens, seeded FFT screens, unseeded calls and "
               "global-RNG noise operations is executed on the real code; all seeded artefacts are compared bit for "
               "bit with references generated in pristine processes after every transition, and the global random "
-              "state and the module globals are part of the explicit state. Two-call interleavings: all 64 ordered "
-              "pairs of 8 colliding operations x every library line of the first (6 912 schedules).")
-LEVEL_NOTE = ("Trusted: copy.deepcopy snapshots, os.fork isolation, numpy bit comparison. Not covered: histories "
-              "deeper than the bound, more than one object per slot, parameters other than the listed ones.")
+              "state and the module globals are part of the explicit state. Two-call single-preemption "
+              "interleavings (64 ordered pairs of 8 colliding operations x every library line of the first) are "
+              "executed as an observation only: thread re-entrancy is not part of the statement.")
+LEVEL_NOTE = ("Trusted: copy.deepcopy snapshots (probed for fidelity per family, process snapshots otherwise), "
+              "os.fork isolation, numpy bit comparison. Not covered: histories deeper than the bound, parameters "
+              "other than the listed ones, real thread concurrency (observation only).")
 
+NEAR = 1.0 + 1e-6        # parameter variants sit next to the base value: a state keyed on rounded / formatted / a
+                          # subset of the parameters confuses them, a history-free library gives each its own bytes
 VKB = dict(nx=4, ps=0.1, r0=0.2, L0=25.0, sd=2)
 FRB = dict(nx=3, ps=0.1, r0=0.2, L0=25.0, sd=4)
 FTB = dict(r0=0.2, N=4, delta=0.1, L0=25.0, l0=0.01)
@@ -82,12 +108,13 @@ SLOTS = {
         "vkN": ("vk", VKB, None),
     },
     "vkp": {
-        "vkA": ("vk", VKB, 1), "vkB": ("vk", _var(VKB, r0=0.1), 1), "vkC": ("vk", _var(VKB, L0=10.0), 1),
-        "vkD": ("vk", _var(VKB, ps=0.2), 1), "vkE": ("vk", _var(VKB, nx=5), 1), "vkF": ("vk", _var(VKB, sd=1), 1),
+        "vkA": ("vk", VKB, 1), "vkB": ("vk", _var(VKB, r0=0.2 * NEAR), 1), "vkC": ("vk", _var(VKB, L0=25.0 * NEAR), 1),
+        "vkD": ("vk", _var(VKB, ps=0.1 * NEAR), 1), "vkE": ("vk", _var(VKB, nx=5), 1), "vkF": ("vk", _var(VKB, sd=1), 1),
     },
     "frp": {
-        "frA": ("fr", FRB, 1), "frB": ("fr", _var(FRB, r0=0.1), 1), "frC": ("fr", _var(FRB, L0=10.0), 1),
-        "frD": ("fr", _var(FRB, ps=0.2), 1), "frE": ("fr", _var(FRB, nx=5), 1), "frF": ("fr", _var(FRB, sd=2), 1),
+        "frA": ("fr", FRB, 1), "frB": ("fr", _var(FRB, r0=0.2 * NEAR), 1), "frC": ("fr", _var(FRB, L0=25.0 * NEAR), 1),
+        # frE: requested size 4 -> allowed size 5 (the crop of the working array to the requested size is exercised)
+        "frD": ("fr", _var(FRB, ps=0.1 * NEAR), 1), "frE": ("fr", _var(FRB, nx=4), 1), "frF": ("fr", _var(FRB, sd=2), 1),
     },
     "ftp": {},
     # explored with process snapshots (fork), see _hist: the operations most likely to be linked through state
@@ -103,10 +130,11 @@ FUNCS = {
     "alias": {"ft1": ("ft", FTB, 1), "ftsh1": ("ftsh", FTB, 1), "ftN": ("ft", FTB, None), "ftshN": ("ftsh", FTB, None)},
 }
 for _f in ("ft", "ftsh"):
-    for _name, _p in (("A", FTB), ("B", _var(FTB, r0=0.1)), ("C", _var(FTB, delta=0.2)), ("D", _var(FTB, L0=10.0)),
-                      ("E", _var(FTB, l0=0.1)), ("F", _var(FTB, N=8))):
+    for _name, _p in (("A", FTB), ("B", _var(FTB, r0=0.2 * NEAR)), ("C", _var(FTB, delta=0.1 * NEAR)),
+                      ("D", _var(FTB, L0=25.0 * NEAR)), ("E", _var(FTB, l0=0.1)), ("F", _var(FTB, N=8))):
         FUNCS["ftp"][_f + _name] = (_f, _p, 1)
 NOISE_OPS = ["np_seed0", "np_seed5", "np_normal3", "opt_grouping", "np_shuffle"]
+AHEAD = 2          # table rows beyond the depth bound (run-ahead after a hidden change of an object not operated on)
 
 
 def _depth(tier, family):
@@ -124,7 +152,10 @@ BIG_SEEDS = [2 ** 31, 2 ** 32, 2 ** 32 + 1, 2 ** 33, 2 ** 63 - 1, 2 ** 64, 2 ** 
 
 def BOUNDS(tier):
     return {"depth": {f: _depth(tier, f) for f in SLOTS}, "families": {f: _ops(f) for f in SLOTS},
-            "distinct_seeds": "0..31 and " + ", ".join(str(s) for s in BIG_SEEDS)}
+            "distinct_seeds": "0..31 and " + ", ".join(str(s) for s in BIG_SEEDS),
+            "twins": "all sequences of length %d over {row a, row b, re-create b} on two instances of seed 1" % _twin_len(tier),
+            "largest_sizes": "held results: FFT 1024 (2048 thorough), Fried 257, von Karman 9 (130 thorough); "
+                             "long extrusions: 39 rows"}
 
 
 def _ops(family):
@@ -140,6 +171,11 @@ def _seed_obj(spec):
     if isinstance(spec, str) and spec.startswith("G"):
         return numpy.random.Generator(numpy.random.PCG64(int(spec[1:])))
     return spec
+
+
+def _documented_seed(spec):
+    """the documented seed domain: `seed (int, optional)` - python / numpy integers and None"""
+    return spec is None or (isinstance(spec, (int, numpy.integer)) and not isinstance(spec, bool))
 
 
 def _new(kind, p, seed):
@@ -179,6 +215,7 @@ def _table_func(family, op):
 
 
 _TABLE = None
+_DEEPCOPY = {}
 
 
 def setup(tier):
@@ -189,7 +226,7 @@ def setup(tier):
         for slot, (kind, p, seed) in SLOTS[family].items():
             if seed is None:
                 continue
-            jobs.append((0, family, slot, _depth(tier, family)))
+            jobs.append((0, family, slot, _depth(tier, family) + AHEAD))
             keys.append((family, slot))
         for op, (kind, p, seed) in FUNCS[family].items():
             if seed is None:
@@ -201,6 +238,13 @@ def setup(tier):
         keys.append(("long", slot))
     res = isolated_map(_table_job, jobs)
     _TABLE = dict(zip(keys, res))
+    # can the screen objects of a family be deep-copied faithfully?  (decides the kind of snapshot, never a verdict)
+    global _DEEPCOPY
+    fams = [f for f in SLOTS if f != "alias" and SLOTS[f]]
+    try:
+        _DEEPCOPY = dict(zip(fams, isolated_map(_probe_deepcopy, [(f,) for f in fams])))
+    except Exception as e:
+        _DEEPCOPY = {f: "probe failed: %r" % (e,) for f in fams}
 
 
 def _table_job(which, family, name, depth):
@@ -212,12 +256,41 @@ def _table_job(which, family, name, depth):
             obj.add_row()
             out.append(_bytes(obj.scrn))
         return out
-    return _table_slot(family, name, depth) if which == 0 else _table_func(family, name)
+    seed = (SLOTS if which == 0 else FUNCS)[family][name][2]
+    try:
+        return _table_slot(family, name, depth) if which == 0 else _table_func(family, name)
+    except (TypeError, ValueError) as e:
+        # a seed kind outside the documented domain (a Generator handed over as seed) may be rejected: the table
+        # entry then says so and every operation that uses it leaves the alphabet ('not claimed')
+        if _documented_seed(seed):
+            raise
+        return {"not_accepted": repr(e)[:300]}
 
 
-# long extrusions: several times the working-array length (anything buffered per block of rows shows up)
+def _accepted(family, name):
+    return not isinstance(_TABLE.get((family, name)), dict)
+
+
+def _family_ops(family):
+    """the family's alphabet without the operations whose (undocumented) seed kind the library rejects"""
+    out = []
+    for op in _ops(family):
+        name = op[4:] if op[:4] in ("new_", "row_") else op
+        if (family, name) in _TABLE and not _accepted(family, name):
+            continue
+        out.append(op)
+    return out
+
+
+# long extrusions: several times the working-array length (anything buffered per block of rows shows up); fr_nx4 and
+# fr_nx6 have a requested size below the allowed size of the working array (5 and 9): the crop is exercised
 LONG = {"vk": ("vk", VKB, 3 * 4 + 3), "vk_big": ("vk", _var(VKB, nx=7), 3 * 7 + 2), "fr": ("fr", FRB, 3 * 12 + 3),
-        "fr_sd1": ("fr", _var(FRB, sd=1), 4 * 3 + 2)}
+        "fr_sd1": ("fr", _var(FRB, sd=1), 4 * 3 + 2), "fr_nx4": ("fr", _var(FRB, nx=4, sd=2), 2 * 10 + 3),
+        "fr_nx6": ("fr", _var(FRB, nx=6, sd=1), 2 * 9 + 2)}
+
+
+def _twin_len(tier):
+    return 5 if tier == "quick" else 7
 
 
 def cases(tier):
@@ -240,12 +313,21 @@ def cases(tier):
             yield Case("held:%s" % what, {"kind": "held", "what": what})
     for kind in ("vk", "fr"):
         yield Case("restart:%s" % kind, {"kind": "restart", "what": kind})
+    for kind in ("vk", "fr"):
+        yield Case("twins:%s" % kind, {"kind": "twins", "what": kind, "n": _twin_len(tier)})
     for a in REENTRY_OPS:
-        yield Case("preempt:A=%s" % a, {"kind": "preempt", "a": a})
+        # observation only (see ASSUMPTIONS): never contributes a violation
+        yield Case("preempt:A=%s" % a, {"kind": "preempt", "a": a}, False)
+
+
+class _NoSnapshot(Exception):
+    """the library's objects cannot be copied: deepcopy snapshots are not available (never a violation)"""
 
 
 class _W(ss.World):
-    """world whose unseeded objects are abstracted in the key"""
+    """world whose unseeded objects are abstracted in the key.  `obj:*` (everything reachable from the object, private
+    attributes and generator state included), module globals and process settings serve the de-duplication of the
+    search and trigger run-aheads; only `scrn:*` (the observable) and the global generators are judged."""
 
     def components(self):
         c = {}
@@ -253,15 +335,34 @@ class _W(ss.World):
         for k, v in self.objects.items():
             if k == "rows":
                 c["rows"] = repr(sorted(v.items()))
-            elif SLOTS[fam][k][2] is None:
+                continue
+            if SLOTS[fam][k][2] is None:
+                # entropy: abstracted in the key; its screen is watched through `pre_unseeded` (see _apply / verify)
                 c["obj:" + k] = "unseeded:rows=%d" % self.objects["rows"].get(k, 0)
             else:
                 c["obj:" + k] = ss.obj_digest(v)
+                c["scrn:" + k] = digest(_bytes(v.scrn))
         st = numpy.random.get_state()
         c["numpy.global_rng"] = digest([st[0], st[1], st[2], st[3], st[4]])
+        c["python.global_rng"] = digest(repr(random.getstate()))
         c["module_globals"] = ss.module_globals_digest(self.modules)
         c["process_settings"] = ss.process_settings()
         return c
+
+    def snapshot(self):
+        try:
+            objs = copy.deepcopy(self.objects)
+        except Exception as e:
+            raise _NoSnapshot(repr(e)[:300])
+        return (objs, numpy.random.get_state(), random.getstate())
+
+    def restore(self, snap):
+        try:
+            self.objects = copy.deepcopy(snap[0])
+        except Exception as e:
+            raise _NoSnapshot(repr(e)[:300])
+        numpy.random.set_state(snap[1])
+        random.setstate(snap[2])
 
 
 def evaluate(p):
@@ -281,6 +382,8 @@ def evaluate(p):
         return _held(p["what"])
     if p["kind"] == "restart":
         return _restart(p["what"])
+    if p["kind"] == "twins":
+        return _twins(p["what"], p["n"])
     if p["kind"] == "preempt":
         return _preempt(p["a"])
     return _unseeded()
@@ -289,6 +392,9 @@ def evaluate(p):
 def _apply_factory(family):
     def _apply(w, op):
         rows = w.objects["rows"]
+        # screens of the live unseeded objects before the operation (they are not in the state key)
+        w.pre_unseeded = {k: digest(_bytes(v.scrn)) for k, v in w.objects.items()
+                          if k != "rows" and SLOTS[family][k][2] is None}
         if op.startswith("new_"):
             slot = op[4:]
             w.objects[slot] = _new(*SLOTS[family][slot])
@@ -296,9 +402,9 @@ def _apply_factory(family):
             return None
         if op.startswith("row_"):
             slot = op[4:]
-            w.objects[slot].add_row()
+            res = w.objects[slot].add_row()
             rows[slot] += 1
-            return None
+            return res
         if op in FUNCS[family]:
             return _fn(*FUNCS[family][op])
         if op == "np_seed0":
@@ -317,37 +423,22 @@ def _apply_factory(family):
     return _apply
 
 
-def _hist(p):
-    from aotools.turbulence import infinitephasescreen as ips, phasescreen, turb
-    o = Out()
-    depth, family = p["depth"], p["family"]
-    table = _TABLE
-    # compile the library's numba kernels once in this process: forked children inherit the compiled code, a
-    # kernel first used inside a child would be compiled again in every child (the calls are part of the history
-    # prefix of every explored history: a screen of another geometry and one optimal grouping)
-    if family == "alias":
-        _new("vk", _var(VKB, nx=3), 99)
-    numpy.random.seed(12345)            # owned: the initial global state is part of the input
-    world = _W({"rows": {}}, modules=(ips, phasescreen, turb))
-    world.family = family
-    apply_op = _apply_factory(family)
-    seeded_slots = [s for s, v in SLOTS[family].items() if v[2] is not None]
-    seeded_funcs = [f for f, v in FUNCS[family].items() if v[2] is not None]
+def _ahead_rows(obj, k):
+    out = []
+    for _ in range(k):
+        obj.add_row()
+        out.append(_bytes(obj.scrn))
+    return out
+
+
+def _make_verify(family, table):
+    """the invariants of one transition (used by the search and by the explorer-free replay)"""
+    from mc.isolate import isolated
+    seeded_slots = [s for s, v in SLOTS[family].items() if v[2] is not None and _accepted(family, s)]
+    seeded_funcs = [f for f, v in FUNCS[family].items() if v[2] is not None and _accepted(family, f)]
     seeded_ops = set(["new_" + s for s in seeded_slots] + ["row_" + s for s in seeded_slots] + seeded_funcs)
-    interleaved = {"n": 0}
 
-    def alphabet(w):
-        live = w.objects["rows"]
-        out = []
-        for op in _ops(family):
-            if op.startswith("row_"):
-                slot = op[4:]
-                if slot not in live or live[slot] >= depth:
-                    continue
-            out.append(op)
-        return out
-
-    def verify(hist, op, pre, w, result, loop, o=o):
+    def verify(hist, op, pre, w, result, loop, o):
         sub = "h=%s" % ",".join(hist + (op,))
         rows = w.objects["rows"]
         for slot in seeded_slots:
@@ -355,6 +446,15 @@ def _hist(p):
                 o.check("seeded_object_equals_isolated_reference",
                         _bytes(w.objects[slot].scrn) == table[(family, slot)][rows[slot]], sub=sub + ":" + slot,
                         detail={"slot": slot, "rows": rows[slot], "params": SLOTS[family][slot][1]})
+        if op.startswith("row_") and op[4:] in seeded_slots:
+            # what add_row() hands back is the screen with the new row (an implementation that returns nothing is
+            # not judged on it)
+            if isinstance(result, numpy.ndarray):
+                o.check("returned_screen_equals_isolated_reference",
+                        _bytes(result) == table[(family, op[4:])][rows[op[4:]]], sub=sub,
+                        detail={"slot": op[4:], "rows": rows[op[4:]]})
+            else:
+                o.stat("add_row_return_value_not_claimed", 1)
         if op in seeded_funcs:
             o.check("seeded_function_equals_isolated_reference", _bytes(result) == table[(family, op)], sub=sub,
                     detail={"params": FUNCS[family][op][1]})
@@ -362,29 +462,120 @@ def _hist(p):
         if op in seeded_ops:
             o.check("seeded_op_leaves_global_rng_untouched",
                     pre["numpy.global_rng"] == post["numpy.global_rng"], sub=sub)
-        # an operation on one object never changes another object
+        # an operation on one object never changes another object: its screen stays what it was, and - when
+        # anything reachable from it changed (hidden state: generator, buffers) - the rows it produces from here on
+        # are still those of the pristine table (run-ahead in a forked copy of this process)
         touched = op[4:] if (op.startswith("new_") or op.startswith("row_")) else None
-        others = [k for k in ss.changed(pre, post)
-                  if k.startswith("obj:") and k != "obj:" + str(touched)]
+        ch = ss.changed(pre, post)
+        others = [k[5:] for k in ch if k.startswith("scrn:") and k[5:] != touched]
+        for k, d in getattr(w, "pre_unseeded", {}).items():
+            if k != touched and k in w.objects and digest(_bytes(w.objects[k].scrn)) != d:
+                others.append(k)
+        for k in ch:
+            slot = k[4:]
+            if not k.startswith("obj:") or slot == touched or slot in others or slot not in seeded_slots \
+                    or slot not in rows:
+                continue
+            want = table[(family, slot)][rows[slot] + 1: rows[slot] + 1 + AHEAD]
+            try:
+                got = isolated(_ahead_rows, w.objects[slot], len(want))
+            except Exception:
+                o.stat("run_ahead_not_claimed", 1)     # instrumentation (fork) failed: nothing is concluded
+                continue
+            if got != want:
+                others.append(slot + ":rows_added_later")
+            else:
+                o.stat("hidden_state_change_without_observable_effect", 1)
         o.check("other_objects_untouched", not others, sub=sub, detail=others)
-        o.check("process_settings_untouched", pre.get("process_settings") == post.get("process_settings"), sub=sub)
+        # outside the statement (numpy error state, print options, warning filters ...): recorded, not judged
+        if pre.get("process_settings") != post.get("process_settings"):
+            o.stat("process_settings_changed_observed", 1)
+    return verify
 
-    # Snapshots are OS processes (fork): the state reached by a history is the process that executed it, so
-    # aliasing between a screen's generator and anything the library keeps in its modules survives - a deepcopy
-    # snapshot would silently cut such links (a seeded 'module-level current generator' was missed that way).
+
+def _probe_deepcopy(family):
+    """in a forked child: can every screen object of the family be deep-copied, and does the copy evolve exactly as
+    the original does?  -> None (yes) or the reason why deepcopy snapshots cannot be used"""
+    try:
+        for slot, (kind, prm, seed) in SLOTS[family].items():
+            if not _accepted(family, slot):
+                continue
+            obj = _new(kind, prm, seed)
+            obj.add_row()
+            cp = copy.deepcopy(obj)
+            if _ahead_rows(cp, 2) != _ahead_rows(obj, 2):
+                return "%s: a deep copy evolves differently from the original" % slot
+    except Exception as e:
+        return "%s: %r" % (slot, e)
+    return None
+
+
+def _hist(p):
+    from aotools.turbulence import infinitephasescreen as ips, phasescreen, turb
+    from mc.isolate import isolated
+    o = Out()
+    depth, family = p["depth"], p["family"]
+    table = _TABLE
+    first = p["first"]
+    ops_ok = _family_ops(family)
+    if first not in ops_ok:
+        o.stat("seed_kind_not_accepted_not_claimed", 1)
+        o.note("not_claimed:%s" % first, table.get((family, first[4:] if first.startswith("new_") else first)))
+        return o
+    # Snapshots: copy.deepcopy of the live objects (fast; complete for state held in the objects, the global
+    # generators and module globals) unless the family is `alias` or the objects cannot be copied faithfully (a lock,
+    # a plan object, a handle among their attributes): then a snapshot is an OS process (fork) - the state reached by
+    # a history is the process that executed it, so aliasing between a screen's generator and anything the library
+    # keeps in its modules survives as well (a seeded 'module-level current generator' was missed by deepcopy).
+    use_fork = family == "alias"
+    if not use_fork:
+        why = _DEEPCOPY.get(family)
+        if why:
+            use_fork = True
+            depth = min(depth, 3)
+            o.stat("deepcopy_snapshots_not_available_process_snapshots_used", 1)
+            o.note("deepcopy_probe:%s" % family, str(why)[:300])
+            o.note("depth_with_process_snapshots:%s" % family, depth)
+    # compile the library's numba kernels once in this process: forked children inherit the compiled code, a
+    # kernel first used inside a child would be compiled again in every child (the calls are part of the history
+    # prefix of every explored history: a screen of another geometry and one optimal grouping)
+    if use_fork:
+        _new("vk", _var(VKB, nx=3), 99)
+    numpy.random.seed(12345)            # owned: the initial global state is part of the input
+    random.seed(12345)
+    world = _W({"rows": {}}, modules=(ips, phasescreen, turb))
+    world.family = family
+    apply_op = _apply_factory(family)
+    verify = _make_verify(family, table)
+
+    def alphabet(w):
+        live = w.objects["rows"]
+        out = []
+        for op in ops_ok:
+            if op.startswith("row_"):
+                slot = op[4:]
+                if slot not in live or live[slot] >= depth:
+                    continue
+            out.append(op)
+        return out
+
     import shutil
     import tempfile
-    first = p["first"]
     pre = world.components()
     res = apply_op(world, first)
-    verify((), first, pre, world, res, False)
-    if family != "alias":
-        # deepcopy snapshots: fast, complete for state held in the objects, the global RNG and module globals
+    verify((), first, pre, world, res, False, o)
+    if not use_fork:
         def on_t(hist, op, pre, w, result, loop):
-            verify((first,) + hist, op, pre, w, result, loop)
+            verify((first,) + hist, op, pre, w, result, loop, o)
             if len(set((first,) + hist + (op,))) > 1:
                 o.stat("nontrivial", 1)
-        st = ss.bfs(world, alphabet, apply_op, on_t, depth - 1)
+        try:
+            st = ss.bfs(world, alphabet, apply_op, on_t, depth - 1)
+        except _NoSnapshot as e:
+            # should have been seen by the probe; what was verified so far stands, the rest is not claimed
+            o.stat("deepcopy_snapshots_failed_rest_not_claimed", 1)
+            o.note("deepcopy_failed:%s:%s" % (family, first), str(e))
+            return o
         o.stat("states", st["states"] + 1)
         o.stat("transitions", st["transitions"] + 1)
         o.stat("self_loops", st["self_loops"])
@@ -396,7 +587,7 @@ def _hist(p):
         ss._claim(seen_dir, world.key(), 1)
 
         def check(hist, op, pre, w, result, loop, out):
-            verify(hist, op, pre, w, result, loop, o=out)
+            verify(hist, op, pre, w, result, loop, out)
             if len(set(hist + (op,))) > 1:
                 out.stat("nontrivial", 1)
         sub, st = ss.fork_search(world, alphabet, apply_op, check, depth, seen_dir, hist=(first,))
@@ -414,7 +605,7 @@ def _hist(p):
 
 def _long(slot):
     """every row of a long extrusion (several working-array lengths) equals the pristine reference, with noise
-    operations (global RNG, unseeded calls, other screens) interleaved between the rows"""
+    operations (global RNGs of numpy and python, unseeded calls, other screens) interleaved between the rows"""
     from aotools.turbulence import phasescreen as ps
     o = Out()
     kind, prm, n_rows = LONG[slot]
@@ -428,14 +619,17 @@ def _long(slot):
                 which = r % 4
                 if which == 0:
                     numpy.random.seed(r)
+                    random.seed(r)
                 elif which == 1:
                     ps.ft_phase_screen(*ft)
                 elif which == 2:
                     _new("vk" if kind == "fr" else "fr", FRB if kind == "vk" else VKB, 1).add_row()
                 else:
                     ps.ft_sh_phase_screen(*ft, seed=r)
-            obj.add_row()
+            got = obj.add_row()
             o.check("long_extrusion_equals_isolated_reference", _bytes(obj.scrn) == table[r], sub="%s:row=%d" % (mode, r))
+            if isinstance(got, numpy.ndarray):
+                o.check("returned_screen_equals_isolated_reference", _bytes(got) == table[r], sub="%s:row=%d" % (mode, r))
         o.stat("lib_calls", n_rows + 1)
     o.stat("nontrivial", n_rows)
     return o
@@ -473,11 +667,34 @@ def _callforms():
                     rows(cls(nx_size=b["nx"], pixel_scale=b["ps"], r0=b["r0"], L0=b["L0"], random_seed=seed, **{extra: b["sd"]})) == ref,
                     sub="%s:seed=%d" % (name, seed))
     o.stat("lib_calls", 3 * (2 * 4 + 2 * 3))
+    # the accelerated-transform branch: `FFT` is documented as a callable object applied to the shifted coefficient
+    # array.  With the SAME callable the seeded screens repeat and different seeds differ (equality with the FFT=None
+    # screen is not claimed: another transform is another parameter set).  A library that wants another kind of FFT
+    # object (TypeError / AttributeError) is not judged.
+    def fft_obj(x):
+        return numpy.fft.ifft2(x)
+    for name, f in (("ft", ps.ft_phase_screen), ("ftsh", ps.ft_sh_phase_screen)):
+        for N in (4, 5):
+            got = {}
+            try:
+                for seed in (1, 7):
+                    got[seed] = [_bytes(f(ft[0], N, *ft[2:], FFT=fft_obj, seed=seed)) for _ in range(2)]
+                    f(ft[0], N, *ft[2:], FFT=fft_obj)          # an unseeded call between the reproductions
+                    got[seed].append(_bytes(f(ft[0], N, *ft[2:], FFT=fft_obj, seed=seed)))
+            except (TypeError, AttributeError):
+                o.stat("fft_callable_not_claimed", 1)
+                continue
+            for seed in (1, 7):
+                o.check("seeded_calls_repeat", got[seed][0] == got[seed][1] == got[seed][2],
+                        sub="%s:N=%d:FFT=callable:seed=%d" % (name, N, seed))
+            o.check("different_seeds_give_different_screens", got[1][0] != got[7][0], sub="%s:N=%d:FFT=callable" % (name, N))
+            o.stat("lib_calls", 8)
     return o
 
 
 # results that the caller still holds while later screens are made (sizes up to FFT grids of 1024 / 1028 points)
-HELD = ["ft:8", "ftsh:8", "ft:130", "ftsh:130", "ft:1024", "ftsh:1024", "vk:9", "fr:9", "fr:257", "ft:2048:t", "vk:130:t"]
+HELD = ["ft:8", "ftsh:8", "ft:130", "ftsh:130", "ft:1024", "ftsh:1024", "vk:9", "fr:9", "fr:6", "fr:257", "ft:2048:t",
+        "vk:130:t"]
 
 
 def _held(what):
@@ -521,13 +738,33 @@ def _held(what):
             o.check("same_seed_same_bytes", _bytes(held[0][1].scrn) == _bytes(held[2][1].scrn), sub="row %d" % (step + 1))
             o.check("held_result_not_overwritten", _bytes(held[1][1].scrn) == held[1][3] and _bytes(held[4][1].scrn) == held[4][3],
                     sub="other instances after row %d" % (step + 1))
+        # the array add_row() RETURNS, held by the caller, is not changed by what happens to OTHER instances (rows
+        # added to them, instances created, function calls); what the SAME instance does to it later is not judged
+        ret = held[1][1].add_row()
+        if isinstance(ret, numpy.ndarray):
+            was = _bytes(ret)
+            held[4][1].add_row()
+            o.check("held_result_not_overwritten", _bytes(ret) == was, sub="returned row array after add_row of the equal-seed instance")
+            o.check("same_seed_same_bytes", _bytes(held[4][1].scrn) == was, sub="equal-seed instance, one row each")
+            held[0][1].add_row()
+            held[3][1].add_row()
+            o.check("held_result_not_overwritten", _bytes(ret) == was, sub="returned row array after add_row of other instances")
+            if n <= 130:
+                make(2)[0].add_row()
+                make(None)
+                o.check("held_result_not_overwritten", _bytes(ret) == was, sub="returned row array after new instances")
+        else:
+            o.stat("add_row_return_value_not_claimed", 1)
     o.stat("lib_calls", 5)
     return o
 
 
 def _restart(kind):
-    """make_initial_screen() on a live integer-seeded instance restarts it: the instance then is what a fresh
-    instance with its current parameters and seed is, and evolves like one (also after random_seed was reassigned)"""
+    """make_initial_screen() (public) on a live integer-seeded instance whose attributes were not touched.
+    Claimed always: two instances with equal seed and equal history restart to equal bytes and evolve equally.
+    Claimed only if the library restarts the random stream at all - probed on an instance with NO rows added: the
+    restarted instance is what a fresh instance is - also after rows were added.  (Where the library creates its
+    generator is its own business: one that keeps ONE stream per instance for its whole life is not judged here.)"""
     o = Out()
     base = VKB if kind == "vk" else FRB
 
@@ -538,27 +775,65 @@ def _restart(kind):
             out.append(_bytes(obj.scrn))
         return out
 
+    fresh_like = {}
     for seed, pre in itertools.product((1, 2), (0, 1, 3)):
         ref = rows(_new(kind, base, seed))
-        obj = _new(kind, base, seed)
-        for _ in range(pre):
-            obj.add_row()
-        obj.make_initial_screen()
-        o.check("restart_equals_fresh_instance", rows(obj) == ref, sub="seed=%d:rows_before=%d" % (seed, pre))
-        obj2 = _new(kind, base, 3 - seed)
-        for _ in range(pre):
-            obj2.add_row()
-        obj2.random_seed = seed
-        obj2.make_initial_screen()
-        o.check("restart_equals_fresh_instance", rows(obj2) == ref, sub="seed reassigned to %d:rows_before=%d" % (seed, pre))
-    o.stat("lib_calls", 18)
+        pair = [_new(kind, base, seed), _new(kind, base, seed)]
+        try:
+            for obj in pair:
+                for _ in range(pre):
+                    obj.add_row()
+                obj.make_initial_screen()
+        except Exception:
+            o.stat("restart_not_claimed", 1)       # no public restart in this library
+            continue
+        ra, rb = rows(pair[0]), rows(pair[1])
+        o.check("restart_is_deterministic", ra == rb, sub="seed=%d:rows_before=%d" % (seed, pre))
+        fresh_like[(seed, pre)] = (ra == ref)
+        o.stat("lib_calls", 3)
+    restarts = all(fresh_like.get((seed, 0), False) for seed in (1, 2))
+    for (seed, pre), ok in sorted(fresh_like.items()):
+        if pre == 0:
+            continue
+        if restarts:
+            o.check("restart_equals_fresh_instance", ok, sub="seed=%d:rows_before=%d" % (seed, pre))
+        else:
+            o.stat("restart_not_claimed", 1)
+    return o
+
+
+def _twins(kind, n):
+    """two live instances of ONE seed (the history search has one object per slot): every sequence of length n over
+    {add a row to a, add a row to b, re-create b}; after every step both equal the pristine table of that seed"""
+    o = Out()
+    base = VKB if kind == "vk" else FRB
+    table = _TABLE[("long", "vk" if kind == "vk" else "fr")]       # seed 1, base parameters
+    for seq in itertools.product("abB", repeat=n):
+        objs = {"a": _new(kind, base, 1), "b": _new(kind, base, 1)}
+        cnt = {"a": 0, "b": 0}
+        bad = None
+        for step, s in enumerate(seq):
+            if s == "B":
+                objs["b"] = _new(kind, base, 1)
+                cnt["b"] = 0
+            else:
+                objs[s].add_row()
+                cnt[s] += 1
+            for k in ("a", "b"):
+                if bad is None and _bytes(objs[k].scrn) != table[cnt[k]]:
+                    bad = "step %d: instance %s with %d rows" % (step + 1, k, cnt[k])
+        o.check("equal_seed_instances_independent", bad is None, sub="%s:seq=%s" % (kind, "".join(seq)), detail=bad)
+        o.stat("lib_calls", n + 2)
+    o.stat("nontrivial", 3 ** n)
     return o
 
 
 # ----------------------------------------------------------------------------- two calls interleaved line by line
-# "irrespective of which other library calls ... are interleaved": besides whole operations (the history search
-# above), one call B run to completion at EVERY library line of another call A - all schedules of two threads with
-# one preemption (mc/reentry.py).  Operations are chosen to collide: equal grid sizes, equal seeds, equal classes.
+# OBSERVATION ONLY.  The statement is about interleavings of whole operations (the history search above); whether
+# two calls may overlap in time is not part of it.  The exploration is kept because its outcome is informative:
+# one call B run to completion, nested, at EVERY library line of another call A - the schedules of two threads with
+# one preemption if the library takes no lock (mc/reentry.py).  It runs in a forked child with a guard: a library
+# that (correctly) protects shared state with a plain lock makes the nested call wait for the outer one for ever.
 
 def _reentry_thunks():
     from aotools.turbulence import phasescreen as ps
@@ -587,36 +862,99 @@ def _reentry_thunks():
 
 REENTRY_OPS = ["ft:seed=1", "ft:seed=2:r0=0.1", "ftsh:seed=1", "ftsh:seed=3:L0=10", "vk:seed=1", "vk:seed=2:r0=0.1",
                "fr:seed=1", "fr:seed=2:L0=10"]
+# guard of the forked child that runs one (A, B) pair: it is killed when the process has consumed (almost) no CPU time
+# for IDLE_S seconds of wall clock (a nested call waiting for a lock its own caller holds), or after WALL_S in any
+# case.  Only an observation depends on it, never a verdict.
+IDLE_S, WALL_S = 20.0, 900
+
+
+def _deadlock_guard():
+    import os
+    import signal
+    import threading
+    import time
+    signal.signal(signal.SIGALRM, signal.SIG_DFL)
+    signal.alarm(WALL_S)
+
+    def watch():
+        last = time.process_time()
+        while True:
+            time.sleep(IDLE_S)
+            now = time.process_time()
+            if now - last < 0.02:
+                os._exit(17)
+            last = now
+    threading.Thread(target=watch, daemon=True).start()
+
+
+def _preempt_pair(a, b):
+    from mc import reentry
+    _deadlock_guard()
+    th = _reentry_thunks()
+    A, B = th[a], th[b]
+    try:
+        solo_a, solo_b = A(), B()
+        bad_a, bad_b, n = [], [], 0
+        for k, where, ra, rb in reentry.explore(A, B):
+            n += 1
+            if ra != solo_a:
+                bad_a.append(where)
+            if rb != solo_b:
+                bad_b.append(where)
+    except Exception as e:
+        return {"raised": repr(e)[:300]}
+    return {"n": n, "nA": len(bad_a), "nB": len(bad_b), "whereA": sorted(set(map(str, bad_a)))[:8],
+            "whereB": sorted(set(map(str, bad_b)))[:8]}
 
 
 def _preempt(a):
-    from mc import reentry
+    from mc.isolate import isolated
     o = Out()
     th = _reentry_thunks()
     solo = {k: f() for k, f in th.items()}
     again = {k: f() for k, f in th.items()}
-    o.check("seeded_calls_repeat", solo == again)
-    A = th[a]
-    points = 0
-    for b in REENTRY_OPS:
-        B = th[b]
-        badA, badB, n = [], [], 0
-        for k, where, ra, rb in reentry.explore(A, B):
-            n += 1
-            if ra != solo[a]:
-                badA.append(where)
-            if rb != solo[b]:
-                badB.append(where)
-        points += n
-        o.check("result_independent_of_where_another_call_ran", not badA, sub="B=%s" % b, n=max(n, 1),
-                detail=None if not badA else "A differs when B runs at %s" % ", ".join(sorted(set(badA))[:8]))
-        o.check("interleaved_call_unaffected", not badB, sub="B=%s" % b, n=max(n, 1),
-                detail=None if not badB else "B differs when run at %s" % ", ".join(sorted(set(badB))[:8]))
-        o.stat("schedules_explored", n)
-        o.stat("lib_calls", 2 * n)
-    o.stat("transitions", points)
-    o.stat("nontrivial", 1)
+    o.check("seeded_calls_repeat", solo == again)          # serial: this one is judged
+    for i, b in enumerate(REENTRY_OPS):
+        try:
+            r = isolated(_preempt_pair, a, b)
+        except Exception:
+            # the child was stopped by its guard (the nested call never returned) or died: nothing is claimed for
+            # this pair, and the remaining pairs of this A would wait as long
+            o.stat("preemption_pairs_not_claimed", len(REENTRY_OPS) - i)
+            o.note("preemption_not_claimed:A=%s:B=%s" % (a, b), "nested call did not return (blocked on a lock of the outer call?)")
+            break
+        if "raised" in r:
+            o.stat("preemption_pairs_not_claimed", 1)
+            o.note("preemption_not_claimed:A=%s:B=%s" % (a, b), r["raised"])
+            continue
+        o.stat("schedules_explored", r["n"])
+        o.stat("lib_calls", 2 * r["n"])
+        if r["nA"] or r["nB"]:
+            o.stat("preemption_dependence_observed", r["nA"] + r["nB"])
+            o.note("preemption_dependence:A=%s:B=%s" % (a, b),
+                   {"A_differs_when_B_runs_at": r["whereA"], "B_differs_when_run_at": r["whereB"]})
     return o
+
+
+def _innovation_residuals(kind, seed, n=3):
+    """OBSERVATION support (uses internals; any surprise -> None): the part of every added row that is not the
+    library's own prediction from the existing screen"""
+    try:
+        obj = _new(kind, VKB if kind == "vk" else FRB, seed)
+        out = []
+        for _ in range(n):
+            cur = numpy.array(obj._scrn)
+            z = cur[(obj.stencil_coords[:, 0], obj.stencil_coords[:, 1])]
+            if kind == "fr":
+                ref = cur[obj.reference_coord]
+                pred = obj.A_mat.dot(z - ref) + ref
+            else:
+                pred = obj.A_mat.dot(z)
+            obj.add_row()
+            out.append(numpy.asarray(obj._scrn)[0] - pred)
+        return numpy.array(out)
+    except Exception:
+        return None
 
 
 def _distinct(what):
@@ -655,8 +993,7 @@ def _distinct(what):
             s.add_row()
             b = s.scrn
         o.check("same_seed_same_bytes", _bytes(a) == _bytes(b), sub="%s:seed=%d" % (what, seed))
-    # every kind of seed numpy.random.default_rng accepts (numpy integer scalars, sequences, arrays): the same
-    # seed object twice gives the same bytes
+
     def make(seed):
         if what == "ft":
             return ps.ft_phase_screen(*ft, seed=seed)
@@ -665,12 +1002,30 @@ def _distinct(what):
         s_ = _new("vk" if what == "vk" else "fr", VKB if what == "vk" else FRB, seed)
         s_.add_row()
         return s_.scrn
-    specials = {"np.int64(5)": lambda: numpy.int64(5), "np.int32(5)": lambda: numpy.int32(5),
-                "np.uint8(5)": lambda: numpy.uint8(5), "list[3,4]": lambda: [3, 4], "tuple(1,2,3)": lambda: (1, 2, 3),
-                "array[7,8]": lambda: numpy.array([7, 8]), "int 0": lambda: 0, "np.int64(0)": lambda: numpy.int64(0)}
-    for name, mk in specials.items():
-        a, b = make(mk()), make(mk())
-        o.check("same_seed_same_bytes", _bytes(a) == _bytes(b), sub="%s:seed=%s" % (what, name))
+
+    def twice(mk, documented):
+        """the same seed object made twice -> two screens; a seed kind outside the documented domain that the
+        library rejects with TypeError / ValueError -> None (not claimed)"""
+        try:
+            return make(mk()), make(mk())
+        except (TypeError, ValueError):
+            if documented:
+                raise
+            o.stat("seed_kind_not_accepted_not_claimed", 1)
+            return None
+    # numpy integer scalars belong to the documented domain (`seed (int)`); the other kinds of seed that
+    # numpy.random.default_rng accepts (sequences, arrays, Generators) are judged if the library accepts them: the
+    # same seed object twice gives the same bytes
+    specials = {"np.int64(5)": (lambda: numpy.int64(5), True), "np.int32(5)": (lambda: numpy.int32(5), True),
+                "np.uint8(5)": (lambda: numpy.uint8(5), True), "list[3,4]": (lambda: [3, 4], False),
+                "tuple(1,2,3)": (lambda: (1, 2, 3), False), "array[7,8]": (lambda: numpy.array([7, 8]), False),
+                "int 0": (lambda: 0, True), "np.int64(0)": (lambda: numpy.int64(0), True),
+                "np.uint64(2**63+5)": (lambda: numpy.uint64(2 ** 63 + 5), True),
+                "Generator(PCG64(5))": (lambda: numpy.random.Generator(numpy.random.PCG64(5)), False)}
+    for name, (mk, documented) in specials.items():
+        pair = twice(mk, documented)
+        if pair is not None:
+            o.check("same_seed_same_bytes", _bytes(pair[0]) == _bytes(pair[1]), sub="%s:seed=%s" % (what, name))
     # seed sequences and their spawned children (the documented way to get independent streams for parallel runs):
     # every child gives its own screen, different from its siblings, its parent and the plain integer; twice the same
     kids = lambda: numpy.random.SeedSequence(5).spawn(3)
@@ -679,15 +1034,36 @@ def _distinct(what):
            "grandchild": lambda: kids()[1].spawn(2)[1], "SeedSequence(5, spawn_key=(7,))": lambda: numpy.random.SeedSequence(5, spawn_key=(7,))}
     got = {}
     for name, mk in fam.items():
-        a, b = make(mk()), make(mk())
-        o.check("same_seed_same_bytes", _bytes(a) == _bytes(b), sub="%s:seed=%s" % (what, name))
-        got[name] = digest(a)
-    names = [n_ for n_ in fam if n_ != "SeedSequence(5)"]      # SeedSequence(5) and the integer 5 are the same seed
+        pair = twice(mk, name == "int 5")
+        if pair is None:
+            continue
+        o.check("same_seed_same_bytes", _bytes(pair[0]) == _bytes(pair[1]), sub="%s:seed=%s" % (what, name))
+        got[name] = digest(pair[0])
+    names = [n_ for n_ in fam if n_ != "SeedSequence(5)" and n_ in got]   # SeedSequence(5) and the integer 5 are the same seed
     for i_, n1 in enumerate(names):
         for n2 in names[i_ + 1:]:
             o.check("different_seeds_give_different_screens", got[n1] != got[n2], sub="%s:%s vs %s" % (what, n1, n2))
     o.stat("lib_calls", 2 * len(fam))
     o.stat("lib_calls", 2 * (32 + len(BIG_SEEDS)) + 2 * len(specials))
+    # OBSERVATION (not judged: the statement compares whole screens): do the random parts of the added rows differ
+    # between seeds and between unseeded instances, or is only the initial screen seed dependent?
+    if what in ("vk", "fried"):
+        kind = "vk" if what == "vk" else "fr"
+        res = [_innovation_residuals(kind, s_) for s_ in (1, 2, 3, None, None)]
+        if any(r is None for r in res):
+            o.stat("innovation_observation_not_available", 1)
+        else:
+            scale = max(float(numpy.max(numpy.abs(r))) for r in res) or 1.0
+            shared = 0
+            for i_ in range(len(res)):
+                for j_ in range(i_ + 1, len(res)):
+                    for row in range(res[i_].shape[0]):
+                        if float(numpy.max(numpy.abs(res[i_][row] - res[j_][row]))) <= 1e-6 * scale:
+                            shared += 1
+            o.stat("row_innovations_shared_between_seeds_observed", shared)
+            if shared:
+                o.note("row_innovations:%s" % what, "the random part of %d (pair of instances, row) is the same for "
+                       "different seeds / unseeded instances" % shared)
     return o
 
 
@@ -704,17 +1080,20 @@ def _unseeded():
             return numpy.concatenate([a.ravel(), numpy.asarray(s.scrn).ravel()])
         return f
     saved = numpy.random.get_state()
+    saved_py = random.getstate()
     for name, f in (("ft", lambda: ps.ft_phase_screen(*ft)), ("ftsh", lambda: ps.ft_sh_phase_screen(*ft)),
                     ("vk", rows("vk", VKB)), ("fried", rows("fr", FRB))):
-        # every way the history can prepare NumPy's global generator before the two calls
+        # every way the history can prepare the process-wide generators (numpy's legacy one, python's) before the two calls
         for prep_name, prep in (("none", lambda: None), ("np_seed3_before_each", lambda: numpy.random.seed(3)),
-                                ("set_state_before_each", lambda: numpy.random.set_state(saved))):
+                                ("set_state_before_each", lambda: numpy.random.set_state(saved)),
+                                ("py_random_seed3_before_each", lambda: random.seed(3)),
+                                ("py_random_setstate_before_each", lambda: random.setstate(saved_py))):
             prep()
             a = f()
             prep()
             b = f()
             o.check("unseeded_calls_differ", _bytes(a) != _bytes(b), sub="%s:global=%s" % (name, prep_name))
-    o.stat("lib_calls", 24)
+    o.stat("lib_calls", 40)
     return o
 
 
@@ -734,27 +1113,19 @@ def replay_one(p, failure):
 def _replay_history(family, ops, clause):
     from aotools.turbulence import infinitephasescreen as ips, phasescreen, turb
     numpy.random.seed(12345)
+    random.seed(12345)
     world = _W({"rows": {}}, modules=(ips, phasescreen, turb))
     world.family = family
     apply_op = _apply_factory(family)
-    bad = []
+    verify = _make_verify(family, _TABLE)
+    out = Out()
     for k, op in enumerate(ops):
         pre = world.components()
         res = apply_op(world, op)
-        post = world.components()
-        rows = world.objects["rows"]
-        for slot, (kind, prm, seed) in SLOTS[family].items():
-            if seed is not None and slot in rows and _bytes(world.objects[slot].scrn) != _TABLE[(family, slot)][rows[slot]]:
-                bad.append("step %d (%s): %s differs from its isolated reference" % (k, op, slot))
-        if op in FUNCS[family] and FUNCS[family][op][2] is not None and _bytes(res) != _TABLE[(family, op)]:
-            bad.append("step %d (%s): result differs from its isolated reference" % (k, op))
-        touched = op[4:] if (op.startswith("new_") or op.startswith("row_")) else None
-        others = [c for c in ss.changed(pre, post) if c.startswith("obj:") and c != "obj:" + str(touched)]
-        if others:
-            bad.append("step %d (%s): changed %s" % (k, op, others))
-        if pre["numpy.global_rng"] != post["numpy.global_rng"] and (op in FUNCS[family] and FUNCS[family][op][2] is not None):
-            bad.append("step %d (%s): global RNG touched" % (k, op))
-    return bool(bad), "history %s -> %s" % (ops, bad or "all seeded artefacts equal their isolated references")
+        verify(tuple(ops[:k]), op, pre, world, res, False, out)
+    bad = ["%s %s %s" % (f["clause"], f["sub"], f["detail"] or "") for f in out.failures]
+    return any(f["clause"] == clause for f in out.failures) or bool(bad), \
+        "history %s -> %s" % (ops, bad[:6] or "all seeded artefacts equal their isolated references")
 
 
 def _unseeded_digests():
@@ -791,9 +1162,15 @@ from mc import repo; repo.load()
 from checks import C06
 out = {}
 for fam, slot in (("main", "vk1"), ("main", "fr1"), ("main", "vkG")):
-    out[fam + ":" + slot] = [C06.digest(x) for x in C06._table_slot(fam, slot, 3)]
+    try:
+        out[fam + ":" + slot] = [C06.digest(x) for x in C06._table_slot(fam, slot, 3)]
+    except (TypeError, ValueError) as e:
+        out[fam + ":" + slot] = "raised " + repr(e)
 for fam, op in (("main", "ft1"), ("main", "ftsh1"), ("main", "ftG")):
-    out[fam + ":" + op] = C06.digest(C06._table_func(fam, op))
+    try:
+        out[fam + ":" + op] = C06.digest(C06._table_func(fam, op))
+    except (TypeError, ValueError) as e:
+        out[fam + ":" + op] = "raised " + repr(e)
 print("RESULT" + json.dumps(out))
 """
 
@@ -810,13 +1187,15 @@ def _interp():
     o = Out()
     mine = {}
     for fam, slot in (("main", "vk1"), ("main", "fr1"), ("main", "vkG")):
-        mine[fam + ":" + slot] = [digest(x) for x in _TABLE[(fam, slot)][:4]]
+        if _accepted(fam, slot):            # a Generator as seed is judged only if the library accepts it
+            mine[fam + ":" + slot] = [digest(x) for x in _TABLE[(fam, slot)][:4]]
     for fam, op in (("main", "ft1"), ("main", "ftsh1"), ("main", "ftG")):
-        mine[fam + ":" + op] = digest(_TABLE[(fam, op)])
+        if _accepted(fam, op):
+            mine[fam + ":" + op] = digest(_TABLE[(fam, op)])
     for hs in ("1", "987654"):
         env = dict(os.environ, PYTHONHASHSEED=hs, AOTOOLS_REPO=repo.REPO)
         r = subprocess.run([sys.executable, "-c", _INTERP_SCRIPT % (VERIF, repo.REPO)], env=env, capture_output=True,
-                           text=True, timeout=600)
+                           text=True, timeout=3600)
         line = [l for l in r.stdout.splitlines() if l.startswith("RESULT")]
         if not line:
             o.check("fresh_interpreter_runs", False, sub="PYTHONHASHSEED=" + hs, detail=(r.stdout + r.stderr)[-600:])
